@@ -2,7 +2,9 @@ mod ctx;
 mod srp;
 mod c01;
 mod c04;
+mod c06;
 mod c07;
+mod c08;
 mod c13;
 
 use ctx::{Ctx, Tier};
@@ -37,7 +39,9 @@ fn main() {
     match prop.as_str() {
         "C01" => { c01::run(&mut ctx); ctx.finish("corr.C01", "run_C01"); }
         "C04" => { c04::run(&mut ctx); ctx.finish("corr.C04", "run_C04"); }
+        "C06" => { c06::run(&mut ctx); ctx.finish("corr.C06", "run_C06"); }
         "C07" => { c07::run(&mut ctx); ctx.finish("corr.C07", "run_C07"); }
+        "C08" => { c08::run(&mut ctx); ctx.finish("corr.C08", "run_C08"); }
         "C13" => { c13::run(&mut ctx); ctx.finish("corr.C13", "run_C13"); }
         _ => { eprintln!("unknown property {}", prop); std::process::exit(2); }
     }
